@@ -9,6 +9,7 @@
 #include <condition_variable>
 #include <memory>
 #include <mutex>
+#include <sstream>
 #include <thread>
 
 using namespace vd;
@@ -217,6 +218,18 @@ static std::vector<ZooCall> make_zoo(int step) {
                      dl::FIRInterpolator ip(2 + k);
                      const arr_real x = gauss_real(r, 240);
                      return flat(rc.process(x) | dc.process(x) | ip.process(x));
+                 }});
+    z.push_back({"stream output of real/complex arrays and scalars", [k] {
+                     vh::Rng r(21 + k);
+                     const arr_cmplx zc = gauss_cmplx(r, 6);
+                     const arr_real zr = gauss_real(r, 5);
+                     std::ostringstream os;
+                     os << zc << zr << zc[0] << cmplx_t{1.5 + k, -2.25};
+                     Flat f;
+                     for (char ch : os.str()) {
+                         f.push_back(double(static_cast<unsigned char>(ch)));
+                     }
+                     return f;
                  }});
     z.push_back({"thd_sinad", [k] {
                      arr_real x(4096);
